@@ -71,6 +71,10 @@ def runOpsT (w : World) (self : Nat) : List Op → World × List Ev × Status ×
     | (w1, evs, .ok) =>
       match runOpsT w1 self rest with
       | (w2, evs2, st, tg2) => (w2, evs ++ evs2, st, tg ++ tg2)
+    | (w1, evs, .stop) =>
+      match rest with
+      | .err :: _ => (w1, evs ++ [.err self], .err, tg ++ ["error.after-self-destruct"])
+      | _ => (w1, evs, .stop, tg)
     | (w1, evs, st) => (w1, evs, st, tg)
 
 def errTags (w : World) : List String :=
